@@ -168,11 +168,11 @@ class SlopeTransformer(_PanelToPanelTransformer):
         """
         avg = len(X) / float(self.num_intervals)
         output = []
-        beginning = 0.0
 
-        while beginning < len(X):
-            output.append(X[int(beginning) : int(beginning + avg)])
-            beginning += avg
+        # compute each boundary from its index instead of accumulating floats,
+        # which can yield an extra (num_intervals + 1)-th segment
+        for i in range(self.num_intervals):
+            output.append(X[int(i * avg) : int((i + 1) * avg)])
 
         return output
 
